@@ -57,6 +57,22 @@ ZeroImpVerdict(r) ==
                  /\ T.vols[i].origin[Len(T.vols[i].origin)][2] \in zero
            THEN {<<"zero_imp_provenance", 0>>} ELSE {})
 
+(* polynomial identity (C02/C04): the SURF that keeps the number of a polynomial deck surface *)
+(* has, up to a non-zero factor, exactly the coefficients of the card's polynomial            *)
+Proportional(w, q) ==
+  /\ w.pivot # 0 /\ q[w.pivot] # 0
+  /\ \A i \in 1..10 : w.ratios[i][2] # 0 /\ w.ratios[i][1] * q[w.pivot] = w.ratios[i][2] * q[i]
+WitnessVerdict(r) ==
+  LET D == r.deck  T == r.file
+      cands == { s \in SeqSet(D.surfs) : ~IsTorus(s) /\ ~IsBody(s) /\ s.tr = 0 }
+      witOf(n) == { T.wit[i] : i \in { j \in 1..Len(T.wit) : T.wit[j].id = n } }
+      bad == { s \in cands : \E w \in witOf(s.n) : ~Proportional(w, CardQ(s)) }
+  IN { <<"locus", s.n>> : s \in bad }
+NWitnessed(r) ==
+  LET D == r.deck  T == r.file
+  IN Cardinality({ s \in SeqSet(D.surfs) : ~IsTorus(s) /\ ~IsBody(s) /\ s.tr = 0
+                     /\ \E j \in 1..Len(T.wit) : T.wit[j].id = s.n })
+
 Clauses == IF "CLAUSES" \in DOMAIN IOEnv THEN IOEnv.CLAUSES ELSE "owner,valid"
 HasClause(c) == \E i \in 1..(Len(Clauses) - Len(c) + 1) : SubSeq(Clauses, i, i + Len(c) - 1) = c
 
@@ -66,7 +82,8 @@ Verdict(r) ==
                  ELSE [bad |-> {}, nowners |-> 0, nchecked |-> 0, ndeep |-> 0]
            fv == IF HasClause("valid") THEN { <<d, 0>> : d \in FileDefects(r.file) } ELSE {}
            zv == IF HasClause("zeroimp") THEN ZeroImpVerdict(r) ELSE {}
-       IN [tid |-> r.tid, bad |-> ov.bad \cup fv \cup zv, nowners |-> ov.nowners,
+           wv == IF HasClause("witness") THEN WitnessVerdict(r) ELSE {}
+       IN [tid |-> r.tid, bad |-> ov.bad \cup fv \cup zv \cup wv, nowners |-> ov.nowners,
            nchecked |-> ov.nchecked, ndeep |-> ov.ndeep]
 
 BlockVerdict(b) == LET tr == BlockTraces(b)
